@@ -566,33 +566,31 @@ Section Containers.
       + intros (k & q & Hk & Hq). exists (k, q). split; [symmetry; exact Hq|]. apply elem_of_map_to_list. exact Hk.
   Qed.
 
-  Lemma save_load_exact s : Inv s ->
-    exists d, save s = SOk d /\ exists s', load d = Some s' /\ layers s' = layers s /\ Inv s'.
+  Lemma save_ok s : Inv s -> save s = SOk (dl <$> layers s).
   Proof.
-    intros HI. exists (dl <$> layers s). split.
-    - unfold save. apply save_layers_ok; [apply paths_nodup; exact HI|intros l _; apply not_elem_of_nil|].
-      destruct HI as (_ & _ & _ & HL). exact HL.
-    - pose proof HI as (N1 & (d & rest & E & Hd & F1 & F2 & F3 & N2) & V & HL).
-      unfold Layer.load.
-      assert (Hv : forallb dlayer_names_valid (dl <$> layers s) = true).
-      { apply forallb_forall. intros x Hx. apply elem_of_list_In in Hx. apply elem_of_list_fmap in Hx.
-        destruct Hx as (l & -> & Hl). unfold dl, dlayer_names_valid. rewrite Forall_forall in V, HL.
-        rewrite (V l Hl). cbn. apply bool_decide_eq_true. intros k q Hk.
-        destruct (HL l Hl) as (_ & _ & _ & _ & H5). apply H5. eauto. }
-      rewrite Hv. cbn [negb].
-      assert (Hl : load_layer lower <$> (dl <$> layers s) = layers s).
-      { rewrite <- list_fmap_compose. rewrite <- (list_fmap_id (layers s)) at 2.
-        apply list_fmap_ext_ne || idtac.
-        clear -HL. induction HL as [|x t Hx Ht IH]; [reflexivity|]. cbn. rewrite IH.
-        f_equal. apply load_layer_dl. exact Hx. }
-      rewrite Hl, E. cbn [split_default]. rewrite (is_default_true d Hd).
-      eexists. split; [reflexivity|]. split; [reflexivity|].
-      split; [|split; [|split]]; cbn [layers lpset].
-      + rewrite <- E. exact N1.
-      + exists d, rest. repeat split; try assumption.
-        apply Forall_forall. intros x Hx. apply elem_of_list_to_set. apply elem_of_list_fmap. eauto.
-      + rewrite <- E. exact V.
-      + rewrite <- E. exact HL.
+    intros HI. unfold save. apply save_layers_ok; [apply paths_nodup; exact HI|intros l _; apply not_elem_of_nil|].
+    destruct HI as (_ & _ & _ & HL). exact HL.
+  Qed.
+
+  Lemma load_layers_dl ls : Forall LInv ls -> load_layer lower <$> (dl <$> ls) = ls.
+  Proof.
+    intros HL. induction HL as [|x t Hx Ht IH]; [reflexivity|]. cbn. cbn in IH. rewrite IH.
+    f_equal. apply load_layer_dl. exact Hx.
+  Qed.
+
+  (** whatever [load] makes of a saved consistent font has exactly its layers *)
+  Lemma load_saved s s' : Inv s -> load (dl <$> layers s) = Some s' -> layers s' = layers s /\ Inv s'.
+  Proof.
+    intros HI. pose proof HI as (N1 & (d & rest & E & Hd & F1 & F2 & F3 & N2) & V & HL).
+    unfold Layer.load. destruct (negb (forallb _ _)); [discriminate|]. destruct (negb (disk_checked _)); [discriminate|].
+    rewrite (load_layers_dl _ HL), E. cbn [split_default]. rewrite (is_default_true d Hd).
+    intros [= <-]. cbn [layers lpset]. split; [reflexivity|].
+    split; [|split; [|split]]; cbn [layers lpset].
+    - rewrite <- E. exact N1.
+    - exists d, rest. repeat split; try assumption.
+      apply Forall_forall. intros x Hx. apply elem_of_list_to_set. apply elem_of_list_fmap. eauto.
+    - rewrite <- E. exact V.
+    - rewrite <- E. exact HL.
   Qed.
 
   (** ** one step *)
@@ -637,7 +635,8 @@ Section Containers.
     - apply rename_layer_inv; assumption.
     - cbn [fst]. apply filter_rest_inv; [exact HI|]. intros l Hl. rewrite (is_default_true l Hl). reflexivity.
     - cbn [fst]. apply filter_rest_inv; [exact HI|]. intros l Hl. rewrite (is_default_true l Hl). reflexivity.
-    - destruct (save_load_exact s HI) as (d & -> & s' & -> & _ & HI'). exact HI'.
+    - rewrite (save_ok s HI). destruct (load (dl <$> layers s)) as [s'|] eqn:El; cbn [fst]; [|exact HI].
+      apply (load_saved s s' HI El).
   Qed.
 
   (** ** an operation that reports an error leaves the state unchanged *)
@@ -912,7 +911,8 @@ Section Containers.
       * rewrite Hx. destruct (decide (ln ∈ keep)); tauto.
     - tauto.
     - (* SaveLoad *)
-      destruct (save_load_exact s HI) as (d & -> & s' & -> & E & _). cbn [fst]. exists l.
+      rewrite (save_ok s HI). destruct (load (dl <$> layers s)) as [s'|] eqn:El'; cbn [fst]; [|exact Hsame].
+      destruct (load_saved s s' HI El') as [E _]. exists l.
       split; [|auto]. unfold get_layer. rewrite E. exact Hl.
   Qed.
 
@@ -959,11 +959,17 @@ Section Containers.
 
   Theorem inv_loaded d s : wf_disk lower d -> load d = Some s -> Inv s.
   Proof.
-    intros (W1 & W2 & W3 & W4). unfold Layer.load.
+    intros (W2 & W4). unfold Layer.load.
     destruct (forallb dlayer_names_valid d) eqn:Ev; [|discriminate]. cbn [negb].
+    destruct (disk_checked d) eqn:Ec; [|discriminate]. cbn [negb].
+    unfold disk_checked in Ec. rewrite !andb_true_iff in Ec. destruct Ec as ((((_ & C2) & _) & C4) & _).
+    apply bool_decide_eq_true in C2. rename C2 into W1.
+    assert (W3 : forall x, x ∈ d -> x.1.2 <> DEFAULT_GLYPHS_DIRNAME -> x.1.1 <> DEFAULT_LAYER_NAME).
+    { intros x Hx Hne Heq. rewrite forallb_forall in C4. apply elem_of_list_In in Hx. specialize (C4 x Hx).
+      rewrite (bool_decide_eq_true_2 _ Heq), (bool_decide_eq_false_2 _ Hne) in C4. discriminate. }
     destruct (split_default (load_layer lower <$> d)) as [[x rest]|] eqn:Es; [|discriminate]. intros [= <-].
     destruct (split_default_spec _ _ _ Es) as (pre & post & Els & -> & Hx).
-    assert (Hname : l_name <$> (load_layer lower <$> d) = (fun y => y.1.1) <$> d).
+    assert (Hname : l_name <$> (load_layer lower <$> d) = (fun y : dlayer => y.1.1) <$> d).
     { rewrite <- list_fmap_compose. apply list_fmap_ext. intros i [[? ?] ?] _; reflexivity. }
     assert (Hpath : (fun l => lower (l_path l)) <$> (load_layer lower <$> d) = (fun y => lower y.1.2) <$> d).
     { rewrite <- list_fmap_compose. apply list_fmap_ext. intros i [[? ?] ?] _; reflexivity. }
@@ -1062,7 +1068,263 @@ Section Containers.
     - intros H. left. eapply rename_layer_panic; eauto.
     - discriminate.
     - discriminate.
-    - destruct (save_load_exact s HI) as (d & -> & s' & -> & _). discriminate.
+    - rewrite (save_ok s HI). destruct (load (dl <$> layers s)); discriminate.
+  Qed.
+
+  (** ** invariants about the names themselves: generic in a predicate on glif file names
+      ([Pf glyph_name file]) and one on layer directories ([Pd layer_name dir]) that hold of
+      everything the file-name function returns for a valid name *)
+  Lemma on_layer_Forall (P : layer -> Prop) s ln f :
+    (forall l, P l -> P (f l).1) -> Forall P (layers s) -> Forall P (layers (on_layer s ln f).1).
+  Proof.
+    intros Hf HP. unfold on_layer. destruct (get_layer s ln) as [l|] eqn:E; [|exact HP].
+    destruct (f l) as [l' o] eqn:Ef. cbn [fst layers]. unfold get_layer in E.
+    eapply update_first_Forall; [exact E| |exact HP]. intros Hl. specialize (Hf l Hl). rewrite Ef in Hf. exact Hf.
+  Qed.
+
+  Section Generic.
+    Variable Pf : str -> str -> Prop.
+    Variable Pd : str -> str -> Prop.
+    Hypothesis HPf : forall g taken p, name_validb g = true -> glif_name g taken = Some p -> Pf g p.
+    Hypothesis HPd : forall n taken p, name_validb n = true -> dir_name n taken = Some p -> Pd n p.
+
+    Definition glayer (l : layer) : Prop :=
+      (forall g q, l_contents l !! g = Some q -> Pf g q) /\
+      (l_path l = DEFAULT_GLYPHS_DIRNAME \/ Pd (l_name l) (l_path l)).
+
+    Lemma g_insert l g l' : name_validb g = true -> glayer l -> insert_glyph l g = Some l' -> glayer l'.
+    Proof.
+      intros Hv [H1 H2] Hi. pose proof (insert_sig _ _ _ Hi) as [Hn Hp]. split; [|rewrite Hn, Hp; exact H2].
+      unfold Layer.insert_glyph in Hi. destruct (l_contents l !! g) eqn:Ec.
+      - injection Hi as <-. exact H1.
+      - destruct (glif_name g (l_pset l)) as [p|] eqn:Ep; [|discriminate]. injection Hi as <-. cbn [l_contents].
+        intros g0 q. destruct (decide (g0 = g)) as [->|Hne].
+        + rewrite lookup_insert. intros [= <-]. eapply HPf; eassumption.
+        + rewrite lookup_insert_ne by congruence. apply H1.
+    Qed.
+    Lemma g_remove l g : glayer l -> glayer (remove_glyph l g).
+    Proof.
+      intros [H1 H2]. split; [|exact H2]. cbn [l_contents Layer.remove_glyph]. intros g0 q Hq.
+      apply lookup_delete_Some in Hq. apply H1. tauto.
+    Qed.
+    Lemma g_rename l old new ow : glayer l -> glayer (rename_glyph l old new ow).1.
+    Proof.
+      intros H. unfold Layer.rename_glyph. destruct (negb ow && _); [exact H|]. destruct (negb (bool_decide _)); [exact H|].
+      destruct (negb (name_validb new)) eqn:Ev; [exact H|]. apply negb_false_iff in Ev.
+      destruct (insert_glyph (remove_glyph l old) new) as [l2|] eqn:Ei; cbn [fst].
+      - eapply g_insert; [exact Ev| |exact Ei]. apply g_remove. exact H.
+      - apply g_remove. exact H.
+    Qed.
+    Lemma g_same_index l l' :
+      l_name l' = l_name l -> l_path l' = l_path l ->
+      (forall g q, l_contents l' !! g = Some q -> l_contents l !! g = Some q) ->
+      glayer l -> glayer l'.
+    Proof. intros Hn Hp Hc [H1 H2]. split; [intros g q Hq; apply H1; auto|rewrite Hn, Hp; exact H2]. Qed.
+
+    Lemma g_new_layer s n : Forall glayer (layers s) -> Forall glayer (layers (new_layer s n).1).
+    Proof.
+      intros HA. unfold Layer.new_layer. destruct (bool_decide _); [exact HA|]. destruct (existsb _ _); [exact HA|].
+      destruct (negb (name_validb n)) eqn:Ev; [exact HA|]. apply negb_false_iff in Ev.
+      destruct (dir_name n (lpset s)) as [p|] eqn:Ep; [|exact HA]. cbn [fst layers].
+      apply Forall_app. split; [exact HA|]. apply Forall_singleton. split.
+      - cbn [l_contents new_layer_value]. intros g q Hq. rewrite lookup_empty in Hq. discriminate.
+      - right. cbn [l_name l_path new_layer_value]. eapply HPd; eassumption.
+    Qed.
+    Lemma g_remove_layer s n : Forall glayer (layers s) -> Forall glayer (layers (remove_layer s n).1).
+    Proof.
+      intros HA. unfold Layer.remove_layer. destruct (layers s) as [|d rest] eqn:El; [cbn [fst]; rewrite El; exact HA|].
+      destruct (remove_first n rest) as [[x rest']|] eqn:Er; cbn [fst layers]; [|rewrite El; exact HA].
+      destruct (remove_first_split _ _ _ _ Er) as (pre & post & -> & -> & _).
+      rewrite Forall_cons, Forall_app, Forall_cons in HA. rewrite Forall_cons, Forall_app. tauto.
+    Qed.
+
+    Theorem ginv_step s o : Inv s -> Forall glayer (layers s) -> Forall glayer (layers (step s o).1).
+    Proof.
+      intros HI HA. destruct o; cbn [Layer.step].
+      - destruct (negb (name_validb g)) eqn:Ev; [exact HA|]. apply negb_false_iff in Ev.
+        apply on_layer_Forall; [|exact HA]. intros l Hl.
+        destruct (insert_glyph l g) as [l'|] eqn:Ei; cbn [fst]; [eapply g_insert; eauto|exact Hl].
+      - apply on_layer_Forall; [|exact HA]. intros l Hl. cbn [fst]. apply g_remove. exact Hl.
+      - apply on_layer_Forall; [|exact HA]. intros l Hl. apply g_rename. exact Hl.
+      - apply on_layer_Forall; [|exact HA]. intros l Hl. cbn [fst].
+        apply (g_same_index l); [reflexivity|reflexivity| |exact Hl]. cbn [l_contents clear]. intros g q Hq.
+        rewrite lookup_empty in Hq. discriminate.
+      - apply on_layer_Forall; [|exact HA]. intros l Hl. cbn [fst].
+        apply (g_same_index l); [reflexivity|reflexivity| |exact Hl]. cbn [l_contents Layer.retain_glyphs]. intros g q Hq.
+        apply map_filter_lookup_Some in Hq. tauto.
+      - destruct (negb (name_validb key)); [exact HA|]. destruct (negb (name_validb g)); [exact HA|].
+        apply on_layer_Forall; [|exact HA]. intros l Hl. cbn [fst]. unfold entry_or_insert.
+        destruct (l_glyphs l !! key); [exact Hl|]. apply (g_same_index l); [reflexivity|reflexivity| |exact Hl]. auto.
+      - apply on_layer_Forall; [|exact HA]. intros l Hl. cbn [fst].
+        apply (g_same_index l); [reflexivity|reflexivity| |exact Hl]. auto.
+      - apply on_layer_Forall; [|exact HA]. intros l Hl. exact Hl.
+      - apply g_new_layer. exact HA.
+      - unfold Layer.get_or_create_layer. destruct (existsb _ _); [exact HA|]. apply g_new_layer. exact HA.
+      - apply g_remove_layer. exact HA.
+      - (* RenameLayer *)
+        unfold Layer.rename_layer. destruct (negb overwrite && _); [exact HA|].
+        destruct (negb (existsb _ _)); [exact HA|]. destruct (layers s) as [|d0 r0] eqn:El; [cbn [fst]; rewrite El; exact HA|].
+        destruct (bool_decide _ && _); [cbn [fst]; rewrite El; exact HA|].
+        destruct (bool_decide (old = new)); [cbn [fst]; rewrite El; exact HA|].
+        destruct (has_name new d0); [cbn [fst]; rewrite El; exact HA|].
+        destruct (negb (name_validb new)) eqn:G6; [cbn [fst]; rewrite El; exact HA|]. apply negb_false_iff in G6.
+        remember (if overwrite then (remove_layer s new).1 else s) as s1 eqn:Hs1.
+        assert (HA1 : Forall glayer (layers s1)).
+        { rewrite Hs1. destruct overwrite; [|rewrite El; exact HA]. apply g_remove_layer. rewrite El. exact HA. }
+        assert (Hd0 : l_path d0 = DEFAULT_GLYPHS_DIRNAME).
+        { destruct HI as (_ & (d & rest & E & Hd & _) & _). rewrite El in E. injection E as <- <-. exact Hd. }
+        assert (Hh : forall d r, layers s1 = d :: r -> d = d0).
+        { rewrite Hs1. destruct overwrite; [|intros d r E; rewrite El in E; congruence].
+          destruct (remove_layer_head s new d0 r0 El) as (rest' & -> & _). intros d r E. congruence. }
+        destruct (layers s1) as [|d r] eqn:E1; [cbn [fst]; rewrite E1; exact HA1|]. specialize (Hh d r eq_refl). subst d.
+        destruct (has_name old d0).
+        + cbn [fst layers]. rewrite Forall_cons in *. split; [|tauto].
+          destruct HA1 as [[H1 _] _]. split; [exact H1|]. left. exact Hd0.
+        + destruct (List.find (has_name old) r) as [x|] eqn:Ef; [|cbn [fst]; rewrite E1; exact HA1].
+          destruct (dir_name new _) as [p|] eqn:Ep; cbn [fst layers]; [|rewrite ?E1; exact HA1].
+          destruct (find_split _ _ _ Ef) as (pre & post & -> & Hx & Hp). rewrite update_first_split by assumption.
+          rewrite Forall_cons, Forall_app, Forall_cons in HA1. rewrite Forall_cons, Forall_app, Forall_cons.
+          destruct HA1 as (Ha & Hb & [Hc1 _] & Hd). split; [exact Ha|]. split; [exact Hb|]. split; [|exact Hd].
+          split; [exact Hc1|]. right. cbn [l_name l_path with_name with_path]. eapply HPd; eassumption.
+      - cbn [fst layers]. apply Forall_filter. exact HA.
+      - cbn [fst layers]. apply Forall_filter. exact HA.
+      - rewrite (save_ok s HI). destruct (load (dl <$> layers s)) as [s'|] eqn:El; cbn [fst]; [|exact HA].
+        destruct (load_saved s s' HI El) as [E _]. rewrite E. exact HA.
+    Qed.
+
+    Lemma ginv_init : Forall glayer (layers init).
+    Proof.
+      apply Forall_singleton. split; [|left; reflexivity]. cbn [l_contents init layers default_layer new_layer_value].
+      intros g q Hq. rewrite lookup_empty in Hq. discriminate.
+    Qed.
+
+    Theorem reachable_g ops : forall s s',
+      Inv s -> Forall glayer (layers s) -> clean s ops -> run s ops = Some s' -> Inv s' /\ Forall glayer (layers s').
+    Proof.
+      induction ops as [|o r IH]; intros s s' HI HA Hc; cbn [Layer.run].
+      - intros [= <-]. auto.
+      - destruct Hc as [Hk Hc]. pose proof (inv_step s o HI Hk) as Hstep. pose proof (ginv_step s o HI HA) as Hstep2.
+        destruct (step s o) as [s1 out] eqn:Es. cbn [fst snd] in *.
+        destruct out; try (apply IH; [apply Hstep; intros site; discriminate|exact Hstep2|exact Hc]).
+        discriminate.
+    Qed.
+  End Generic.
+
+  (** *** instance 1: assigned names *)
+  Notation assigned_layer := (assigned_layer is_upper lower).
+  Notation AInv := (AInv is_upper lower).
+  Theorem ainv_step s o : Inv s -> AInv s -> AInv (step s o).1.
+  Proof. apply (ginv_step (fun g q => exists taken, glif_name g taken = Some q) (fun n p => exists taken, dir_name n taken = Some p)); eauto. Qed.
+  Lemma ainv_init : AInv init.
+  Proof. apply (ginv_init (fun g q => exists taken, glif_name g taken = Some q) (fun n p => exists taken, dir_name n taken = Some p)). Qed.
+  Theorem reachable_assigned ops s s' : Inv s -> AInv s -> clean s ops -> run s ops = Some s' -> Inv s' /\ AInv s'.
+  Proof. apply (reachable_g (fun g q => exists taken, glif_name g taken = Some q) (fun n p => exists taken, dir_name n taken = Some p)); eauto. Qed.
+
+  (** *** instance 2: plain names (single normal path components) *)
+  Lemma single_component_plain r : single_component r -> plain_name r = true.
+  Proof.
+    intros (H1 & H2 & H3 & H4 & _). unfold plain_name. rewrite !andb_true_iff, !negb_true_iff. repeat split.
+    - destruct r; [congruence|reflexivity].
+    - apply memb_false. exact H4.
+    - destruct (str_eqb r [DOT]) eqn:E; [|reflexivity]. apply str_eqb_eq in E. congruence.
+    - destruct (str_eqb r [DOT; DOT]) eqn:E; [|reflexivity]. apply str_eqb_eq in E. congruence.
+  Qed.
+  Lemma glif_name_plain g taken p : name_validb g = true -> glif_name g taken = Some p -> plain_name p = true.
+  Proof.
+    intros Hv H. apply name_validb_spec in Hv. destruct (glyph_file_name_spec _ _ _ _ _ Hv H) as ((Hs & _) & _).
+    apply single_component_plain. exact Hs.
+  Qed.
+  Lemma dir_name_plain n taken p : name_validb n = true -> dir_name n taken = Some p -> plain_name p = true.
+  Proof.
+    intros Hv H. apply name_validb_spec in Hv. destruct (layer_dir_name_spec _ _ _ _ _ Hv H) as ((Hs & _) & _).
+    apply single_component_plain. exact Hs.
+  Qed.
+  Theorem plain_step s o : Inv s -> Plain s -> Plain (step s o).1.
+  Proof. apply (ginv_step (fun _ q => plain_name q = true) (fun _ p => plain_name p = true)); [apply glif_name_plain|apply dir_name_plain]. Qed.
+  Lemma plain_init : Plain init.
+  Proof. apply (ginv_init (fun _ q => plain_name q = true) (fun _ p => plain_name p = true)). Qed.
+  Theorem reachable_plain ops s s' : Inv s -> Plain s -> clean s ops -> run s ops = Some s' -> Inv s' /\ Plain s'.
+  Proof. apply (reachable_g (fun _ q => plain_name q = true) (fun _ p => plain_name p = true)); [apply glif_name_plain|apply dir_name_plain]. Qed.
+
+  (** the checks at load make a loaded font plain *)
+  Lemma plain_loaded d s : load d = Some s -> Plain s.
+  Proof.
+    unfold Layer.load. destruct (negb (forallb _ _)); [discriminate|].
+    destruct (disk_checked d) eqn:Ec; [|discriminate]. cbn [negb].
+    destruct (split_default (load_layer lower <$> d)) as [[x rest]|] eqn:Es; [|discriminate]. intros [= <-].
+    destruct (split_default_spec _ _ _ Es) as (pre & post & Els & -> & Hx).
+    unfold disk_checked in Ec. rewrite !andb_true_iff in Ec. destruct Ec as ((((C1 & _) & _) & _) & C5).
+    assert (Hall : Forall plain_layer (load_layer lower <$> d)).
+    { apply Forall_fmap. apply Forall_forall. intros dy Hd. rewrite forallb_forall in C1, C5.
+      apply elem_of_list_In in Hd. specialize (C1 dy Hd). specialize (C5 dy Hd).
+      destruct dy as [[n p] c]. unfold dlayer_files_ok in C5. cbn in *. apply andb_true_iff in C5. destruct C5 as [C5 _].
+      apply bool_decide_eq_true in C5. split; [|right; exact C1]. cbn. intros g q Hq. eapply C5. exact Hq. }
+    unfold Layer.Plain. cbn [layers]. rewrite Els in Hall. rewrite Forall_app, Forall_cons in Hall.
+    rewrite Forall_cons, Forall_app. tauto.
+  Qed.
+
+  (** saving and loading a consistent, plain font succeeds and reproduces its layers *)
+  Lemma nodup_values (c : gmap str str) :
+    (forall g1 g2 q, c !! g1 = Some q -> c !! g2 = Some q -> g1 = g2) -> NoDup (map_to_list c).*2.
+  Proof.
+    intros Hinj. apply NoDup_fmap_2_strong; [|apply NoDup_map_to_list].
+    intros [g1 q1] [g2 q2] H1 H2 Heq. cbn in Heq. subst q2.
+    apply elem_of_map_to_list in H1, H2. f_equal. eapply Hinj; eauto.
+  Qed.
+  Lemma saved_disk_checked s : Inv s -> Plain s -> disk_checked (dl <$> layers s) = true.
+  Proof.
+    intros HI HP. pose proof (paths_nodup s HI) as HN.
+    destruct HI as (N1 & (d & rest & E & Hd & F1 & F2 & F3 & N2) & V & HL).
+    unfold Layer.Plain in HP. rewrite Forall_forall in HP, HL.
+    unfold disk_checked. rewrite !andb_true_iff. repeat split.
+    - apply forallb_forall. intros x Hx. apply elem_of_list_In in Hx. apply elem_of_list_fmap in Hx.
+      destruct Hx as (l & -> & Hl). cbn. destruct (HP l Hl) as [_ [->|H]]; [reflexivity|exact H].
+    - apply bool_decide_eq_true. rewrite <- list_fmap_compose. exact N1.
+    - apply bool_decide_eq_true. rewrite <- list_fmap_compose. exact HN.
+    - apply forallb_forall. intros x Hx. apply elem_of_list_In in Hx. apply elem_of_list_fmap in Hx.
+      destruct Hx as (l & -> & Hl). cbn. rewrite E in Hl. apply elem_of_cons in Hl. destruct Hl as [->|Hl].
+      + rewrite (bool_decide_eq_true_2 _ Hd). apply orb_true_r.
+      + rewrite Forall_forall in F2. rewrite (bool_decide_eq_false_2 _ (F2 l Hl)). reflexivity.
+    - apply forallb_forall. intros x Hx. apply elem_of_list_In in Hx. apply elem_of_list_fmap in Hx.
+      destruct Hx as (l & -> & Hl). unfold dlayer_files_ok, dl. cbn. apply andb_true_iff. split.
+      + apply bool_decide_eq_true. intros g q Hq. destruct (HP l Hl) as [H _]. eapply H. exact Hq.
+      + apply bool_decide_eq_true. apply nodup_values. intros g1 g2 q H1 H2.
+        destruct (HL l Hl) as (_ & _ & _ & H4 & _). eapply H4; eauto.
+  Qed.
+  Theorem save_load_exact s : Inv s -> Plain s ->
+    exists d, save s = SOk d /\ exists s', load d = Some s' /\ layers s' = layers s /\ Inv s' /\ Plain s'.
+  Proof.
+    intros HI HP. exists (dl <$> layers s). split; [apply save_ok; exact HI|].
+    assert (Hsome : exists s', load (dl <$> layers s) = Some s').
+    { pose proof HI as (N1 & (d & rest & E & Hd & _) & V & HL). unfold Layer.load.
+      assert (Hv : forallb dlayer_names_valid (dl <$> layers s) = true).
+      { apply forallb_forall. intros x Hx. apply elem_of_list_In in Hx. apply elem_of_list_fmap in Hx.
+        destruct Hx as (l & -> & Hl). unfold dl, dlayer_names_valid. rewrite Forall_forall in V, HL.
+        rewrite (V l Hl). cbn. apply bool_decide_eq_true. intros k q Hk.
+        destruct (HL l Hl) as (_ & _ & _ & _ & H5). apply H5. eauto. }
+      rewrite Hv, (saved_disk_checked s HI HP). cbn [negb].
+      rewrite (load_layers_dl _ HL), E. cbn [split_default]. rewrite (is_default_true d Hd). eauto. }
+    destruct Hsome as [s' Hs']. exists s'. split; [exact Hs'|].
+    destruct (load_saved s s' HI Hs') as [E HI']. split; [exact E|]. split; [exact HI'|].
+    unfold Layer.Plain. rewrite E. exact HP.
+  Qed.
+
+  (** every name in a font built through the API satisfies the clauses of C07 *)
+  Theorem assigned_portable s : Inv s -> AInv s ->
+    forall l, l ∈ layers s ->
+      (forall g q, l_contents l !! g = Some q ->
+         portable_name q /\ (exists c t, q = c :: t /\ c <> DOT) /\ (exists m, q = m ++ GLYPH_SUFFIX)) /\
+      (l_path l = DEFAULT_GLYPHS_DIRNAME \/
+       (portable_name (l_path l) /\ (exists m, l_path l = LAYER_PREFIX ++ m /\ m <> []) /\ (blen (l_path l) <= MAX_LEN)%N)).
+  Proof.
+    intros HI HA l Hl. unfold Layer.AInv in HA. rewrite Forall_forall in HA. destruct (HA l Hl) as [H1 H2].
+    destruct HI as (_ & _ & V & HL). rewrite Forall_forall in V, HL. split.
+    - intros g q Hq. destruct (H1 g q Hq) as [taken Ht].
+      destruct (HL l Hl) as (_ & _ & _ & _ & H5). assert (Hv : name_valid g) by (apply name_validb_spec, H5; eauto).
+      destruct (glyph_file_name_spec _ _ _ _ _ Hv Ht) as (P1 & P2 & P3 & _). auto.
+    - destruct H2 as [H2|[taken Ht]]; [left; exact H2|right].
+      assert (Hv : name_valid (l_name l)) by (apply name_validb_spec, V; exact Hl).
+      destruct (layer_dir_name_spec _ _ _ _ _ Hv Ht) as (P1 & P2 & _ & P4). auto.
   Qed.
 End Containers.
 
@@ -1103,14 +1365,27 @@ Proof.
   - vm_compute. reflexivity.
 Qed.
 
-(** loading does not check uniqueness: two layercontents entries with the same name load *)
-Definition bad_disk : disk :=
-  [(DEFAULT_LAYER_NAME, DEFAULT_GLYPHS_DIRNAME, ∅); (nA, [103;46;97]%N, ∅); (nA, [103;46;98]%N, ∅)].
-Lemma load_unchecked_refuted : exists s, load ascii_lower bad_disk = Some s /\ ~ Inv ascii_lower s.
+(** loading compares directories exactly: two directories that differ only by case load, the
+    loaded font violates the invariant, and removing one layer frees the other's directory in
+    the taken-set, so that a new layer is given a directory that is already in use and saving
+    fails (known finding load-case-clash).  Duplicate names / directories are refused. *)
+Definition nb : str := [98%N].
+Definition nB : str := [66%N].
+Definition clash_disk : disk :=
+  [(DEFAULT_LAYER_NAME, DEFAULT_GLYPHS_DIRNAME, ∅); (nb, s2l "glyphs.A_"%string, ∅); (nB, s2l "glyphs.a_"%string, ∅)].
+Definition dup_disk : disk :=
+  [(DEFAULT_LAYER_NAME, DEFAULT_GLYPHS_DIRNAME, ∅); (nA, s2l "glyphs.a"%string, ∅); (nA, s2l "glyphs.b"%string, ∅)].
+Lemma load_case_clash_refuted :
+  load ascii_lower dup_disk = None /\
+  exists s, load ascii_lower clash_disk = Some s /\ ~ Inv ascii_lower s /\
+    exists s2, run ascii_is_upper ascii_lower s [RemoveLayer nB; NewLayer nA] = Some s2 /\
+               (step ascii_is_upper ascii_lower s2 SaveLoad).2 = OErr SaveErr.
 Proof.
-  eexists. split; [vm_compute; reflexivity|]. intros (N & _). vm_compute in N.
-  apply NoDup_cons in N. destruct N as [_ N]. apply NoDup_cons in N. destruct N as [N _].
-  apply N. left.
+  split; [vm_compute; reflexivity|].
+  eexists. split; [vm_compute; reflexivity|]. split.
+  - intros (_ & (d & rest & E & _ & _ & _ & _ & N) & _). injection E as <- <-. vm_compute in N.
+    apply NoDup_cons in N. destruct N as [N _]. apply N. left.
+  - eexists. split; vm_compute; reflexivity.
 Qed.
 
 Lemma full_refuted :
